@@ -1,7 +1,10 @@
 """C17 - generate() forgets the object's past."""
 import os
 
+import copy
+
 import core
+import s3_util as S3
 import uwgutil as U
 
 MODULE = 'UwgVerif.Props.C17'
@@ -109,7 +112,8 @@ def gen_history(rng, with_params):
 
 
 def base_model(outdir):
-    return U.new_model(outdir=outdir, outname='c17.epw', nday=1, dtsim=300, bld=STOCK, zone='1A')
+    # (a copy: the `bld` setter keeps the caller's list object, and the extended histories edit it in place)
+    return U.new_model(outdir=outdir, outname='c17.epw', nday=1, dtsim=300, bld=list(STOCK), zone='1A')
 
 
 PARAMS = ['glzr', 'albroof', 'sensanth', 'month', 'day', 'grasscover', 'bldheight', 'shgc', 'flr_h',
@@ -129,6 +133,304 @@ def make_epws(work):
     with open(b, 'w', newline='') as f:
         csv.writer(f, lineterminator='\n').writerows(rows)
     EPWS['A'], EPWS['B'] = a, b
+
+
+# ----------------------------------------------------------------------------------------------------------
+# Extended operation alphabet: what a call sequence leaves behind.
+#   in-place edits of list-valued parameters (bld item / slice / append / pop, edits through the caller's own
+#   reference to the list he assigned, schtraffic entries), refused assignments of every validated parameter
+#   family (caught by the caller), parameters set after generate() and before simulate(), attributes assigned
+#   on custom reference objects after they were handed in. Not part of the toy abstraction: judged by the
+#   differential oracle only (state digest after generate, then hourly records, vs a fresh object carrying
+#   deep copies of the CURRENT parameter values).
+TYPES = ['hospital', 'largehotel', 'medoffice', 'smalloffice', 'warehouse', 'primaryschool', 'supermarket']
+ERAS = ['pre80', 'pst80', 'new', 'Pst80', 'NEW']
+# refused schtraffic assignment with a NaN entry: the setter of the unchanged tree zeroes the stored matrix
+# before it validates the entries (reported as a finding of the unchanged code; recorded, not judged)
+KNOWN_TRACE = {'schtraffic-nan'}
+
+
+def apply_ext(m, op, ctx):
+    """One operation of the extended alphabet on the real object. Returns a message when a refused
+    assignment left a visible trace in the parameters, else None."""
+    k = op[0]
+    if k == 'gen':
+        with core.quiet():
+            m.generate()
+    elif k == 'sim':
+        with core.quiet():
+            m.simulate()
+    elif k == 'set':
+        setattr(m, op[1], EPWS[op[2]] if op[1] == 'epw_path' else copy.deepcopy(op[2]))
+    elif k == 'bld_item':                       # m.bld[i] = (other type, other era, same share)
+        i = op[1] % len(m.bld)
+        m.bld[i] = (op[2][0], op[2][1], m.bld[i][2])
+    elif k == 'bld_move':                       # shift a share from row i to row j (two item assignments)
+        i, j = op[1] % len(m.bld), op[2] % len(m.bld)
+        if i != j:
+            d = min(op[3], m.bld[i][2] / 2)
+            m.bld[i] = (m.bld[i][0], m.bld[i][1], m.bld[i][2] - d)
+            m.bld[j] = (m.bld[j][0], m.bld[j][1], m.bld[j][2] + d)
+    elif k == 'bld_split':                      # take a share off row i and append a new row with it
+        i = op[1] % len(m.bld)
+        t, e, f = m.bld[i]
+        d = min(op[3], f / 2)
+        m.bld[i] = (t, e, f - d)
+        m.bld.append((op[2][0], op[2][1], d))
+    elif k == 'bld_pop':                        # undo of a split: remove the last row, give its share to row 0
+        if len(m.bld) > 1:
+            t, e, f = m.bld.pop()
+            t0, e0, f0 = m.bld[0]
+            m.bld[0] = (t0, e0, f0 + f)
+    elif k == 'bld_slice':                      # m.bld[:] = rows
+        m.bld[:] = [tuple(r) for r in op[1]]
+    elif k == 'bld_caller':                     # whole assignment of a list the caller keeps a reference to
+        ctx['lst'] = [tuple(r) for r in op[1]]
+        m.bld = ctx['lst']
+    elif k == 'caller_edit':                    # the caller edits his own list afterwards
+        if ctx.get('lst'):
+            i = op[1] % len(ctx['lst'])
+            ctx['lst'][i] = (op[2][0], op[2][1], ctx['lst'][i][2])
+    elif k == 'traffic_item':
+        m.schtraffic[op[1]][op[2]] = op[3]
+    elif k == 'refuse':
+        before = S3.param_view(m)
+        res = S3.try_assign(m, op[1], op[2])
+        ctx['refusals'][res.split(' ')[0]] = ctx['refusals'].get(res.split(' ')[0], 0) + 1
+        if res == 'accepted':                   # not a refusal after all: a set-and-change-back history
+            setattr(m, op[1], before[op[1]])
+        d = S3.view_diff(before, S3.param_view(m))
+        if d:
+            return '%s = %r %s, but %s reads %r afterwards (before: %r)' % (
+                op[1], op[2], res, d[0][0], d[0][2], d[0][1])
+    elif k == 'gen_fail':                       # a generate() that raises (refused timestep / missing type), caught
+        old = copy.deepcopy(getattr(m, op[1]))
+        setattr(m, op[1], copy.deepcopy(op[2]))
+        try:
+            with core.quiet():
+                m.generate()
+            ctx['refusals']['generate-returned'] = ctx['refusals'].get('generate-returned', 0) + 1
+        except Exception:  # noqa: BLE001
+            ctx['refusals']['generate-raised'] = ctx['refusals'].get('generate-raised', 0) + 1
+        setattr(m, op[1], old)
+    elif k == 'sim_fail':                       # a simulate() that raises part-way (toy physics), caught
+        import simtoy
+        if hasattr(m, 'simTime'):
+            err = simtoy.toy_morph_simulate(m, op[1], op[2])
+            ctx['refusals']['simulate-' + (err or 'returned')] = ctx['refusals'].get('simulate-' + (err or 'returned'), 0) + 1
+            if op[3]:
+                try:
+                    with core.quiet():
+                        m.write_epw()
+                except Exception:  # noqa: BLE001
+                    pass
+    elif k == 'custom_attr':                    # attribute assignment on a custom object handed in earlier
+        obj = m.ref_bem_vector[op[1]]
+        for part in op[2].split('.')[:-1]:
+            obj = getattr(obj, part)
+        setattr(obj, op[2].split('.')[-1], op[3])
+    else:
+        raise core.Infra('unknown operation %r' % (op,))
+    return None
+
+
+def rand_row(rng, frac=None):
+    return (rng.choice(TYPES), rng.choice(ERAS))
+
+
+def rand_stock(rng):
+    f = rng.choice([0.25, 0.3, 0.5, 0.7])
+    a, b = rng.sample(TYPES + ['largeoffice', 'midriseapartment'], 2)
+    return [(a, rng.choice(ERAS), f), (b, rng.choice(ERAS), 1.0 - f)]
+
+
+def rand_refusal(rng, table):
+    fam, p, v = rng.choice(table)
+    return ('refuse', p, v)
+
+
+def ext_corpus(rng, table):
+    """Histories that contain each class of the extended alphabet at least once (several members each),
+    with the operation both before the first generate and between two generate calls."""
+    fam = {}
+    for f, p, v in table:
+        fam.setdefault(f, []).append(('refuse', p, v))
+    neg_cover = [('refuse', p, v) for p in ('grasscover', 'treecover', 'blddensity') for v in (-0.05, -0.2)]
+    hs = [
+        [('bld_item', 1, rand_row(rng)), ('gen',), ('sim',)],
+        [('gen',), ('sim',), ('bld_item', 0, rand_row(rng)), ('bld_move', 0, 1, 0.125), ('gen',), ('sim',)],
+        [('gen',), ('bld_split', 1, rand_row(rng), 0.25), ('gen',), ('sim',)],
+        [('bld_split', 0, rand_row(rng), 0.1), ('gen',), ('bld_pop',), ('gen',), ('sim',)],
+        [('gen',), ('bld_slice', rand_stock(rng)), ('gen',), ('sim',)],
+        [('bld_caller', rand_stock(rng)), ('gen',), ('caller_edit', 1, rand_row(rng)), ('gen',), ('sim',)],
+        [('traffic_item', 0, 12, 0.0), ('traffic_item', 2, 12, 1.0), ('gen',), ('traffic_item', 1, 3, 0.9),
+         ('gen',), ('sim',)],
+        [rng.choice(neg_cover), ('gen',), ('sim',)],
+        [('gen',), ('sim',), rng.choice(neg_cover), rng.choice(fam['ratio']), ('gen',), ('sim',)],
+        [('set', 'grasscover', 0.2), rng.choice(fam['override']), rng.choice(fam['override']), ('gen',), ('sim',)],
+        [('set', 'albwall', 0.3), ('refuse', 'albwall', 1.5), ('set', 'glzr', 0.4), ('refuse', 'glzr', 1.4),
+         ('refuse', 'albroof', 7.0), ('gen',), ('sim',)],
+        [rng.choice(fam['int']), rng.choice(fam['positive']), rng.choice(fam['bld']), rng.choice(fam['zone']),
+         ('gen',), rng.choice(fam['schtraffic']), rng.choice(fam['path']), rng.choice(fam['int']), ('gen',), ('sim',)],
+        [('gen',), ('set', 'nday', 2), ('sim',), ('set', 'nday', 1), ('gen',), ('sim',)],
+        [('gen_fail', 'dtsim', 7), ('gen',), ('sim_fail', rng.randint(0, 999), 53, True), ('gen',), ('sim',)],
+        [('gen',), ('sim',), ('gen_fail', 'bld', [('LargeOffice', 'pst80', 1.0)]), ('sim_fail', 5, 1, False),
+         ('gen_fail', 'dtsim', 1000), ('gen',), ('sim',)],
+        [('gen',), ('set', 'month', 7), ('set', 'dtsim', 150), ('sim',), ('set', 'dtsim', 300), ('gen',), ('sim',)],
+    ]
+    return hs
+
+
+def ext_random(rng, table):
+    ops = []
+    for _ in range(rng.randint(2, 6)):
+        r = rng.random()
+        if r < 0.2:
+            ops.append(('gen',))
+        elif r < 0.28:
+            ops.append(('sim',) if ('gen',) in ops else ('gen',))
+        elif r < 0.5:
+            ops.append(rng.choice([('bld_item', rng.randint(0, 3), rand_row(rng)),
+                                   ('bld_move', rng.randint(0, 3), rng.randint(0, 3), rng.choice([0.1, 0.125])),
+                                   ('bld_split', rng.randint(0, 3), rand_row(rng), rng.choice([0.1, 0.25])),
+                                   ('bld_pop',), ('bld_slice', rand_stock(rng)), ('bld_caller', rand_stock(rng)),
+                                   ('caller_edit', rng.randint(0, 1), rand_row(rng)),
+                                   ('traffic_item', rng.randint(0, 2), rng.randint(0, 23), rng.choice([0.0, 0.5, 1.0]))]))
+        elif r < 0.85:
+            ops.append(rand_refusal(rng, table))
+        else:
+            ops.append(rng.choice([('set', 'grasscover', rng.choice([0.0, 0.1, 0.2])),
+                                   ('set', 'treecover', rng.choice([0.0, 0.1])),
+                                   ('set', 'glzr', rng.choice([None, 0.0, 1.0, 0.35])),
+                                   ('set', 'albwall', rng.choice([None, 0.0, 0.6])),
+                                   ('set', 'vegroof', rng.choice([None, 0.5])),
+                                   ('set', 'nday', rng.choice([1, 2])),
+                                   ('set', 'epw_path', rng.choice(['A', 'B']))]))
+    if any(o[0] == 'set' and o[1] == 'nday' for o in ops):
+        ops.append(('set', 'nday', 1))
+    return ops + [('gen',), ('sim',)]
+
+
+def custom_histories(rng):
+    """Histories on an object constructed with a custom reference building (the shipped largeoffice/pst80
+    handed back): attributes assigned on the custom after it was handed in / after a generate."""
+    attr = [('building.cop', 2.6), ('building.coolcap', 50.0), ('building.glazing_ratio', 0.9),
+            ('roof.albedo', 0.7), ('wall.albedo', 0.05), ('building.condtype', 'water'),
+            ('roof.vegcoverage', 0.6), ('building.heateff', 0.6), ('building.infil', 1.0)]
+    hs = [[('custom_attr', 0) + attr[0], ('gen',), ('sim',)],
+          [('gen',), ('sim',), ('custom_attr', 0) + rng.choice(attr[1:]), ('gen',), ('sim',)]]
+    a, b = rng.sample(attr, 2)
+    hs.append([('custom_attr', 0) + a, ('gen',), ('custom_attr', 0) + b, ('refuse', 'glzr', -0.2), ('gen',), ('sim',)])
+    return hs
+
+
+def extended_histories(chk, work, uwg):
+    rng = chk.rng
+    table = S3.refusal_table()
+    nrand = 6 if chk.tier == 'quick' else 80
+    plain = ext_corpus(rng, table) + [ext_random(rng, table) for _ in range(nrand)]
+    cust = custom_histories(rng)
+    if chk.tier == 'thorough':
+        for _ in range(3):
+            cust += custom_histories(rng)
+    bad_state = bad_rec = bad_trace = 0
+    classes, refusals, nsim, known = {}, {}, 0, 0
+    for h, with_custom in [(h, False) for h in plain] + [(h, True) for h in cust]:
+        m = base_model(work)
+        if with_custom:
+            bem, sch = S3.custom_from_library(uwg)
+            m.ref_bem_vector, m.ref_sch_vector = m._check_reference_data([bem], [sch])
+        ctx = {'refusals': refusals}
+        case = {'history': [list(o) for o in h], 'custom_reference_building': with_custom}
+        for o in h:
+            classes[o[0]] = classes.get(o[0], 0) + 1
+        for op in h[:-1]:
+            msg = apply_ext(m, op, ctx)
+            nsim += op[0] == 'sim'
+            if msg:
+                bad_trace += 1
+                if bad_trace <= 2:
+                    chk.violation('impl-violation', 'refused assignment leaves a trace in the parameters',
+                                  case=case, observed=msg,
+                                  expected='a refused assignment changes nothing a caller can read back '
+                                           '(to_dict, vegcover, epw_path)')
+        f = S3.fresh_like(m, work, 'c17f.epw')
+        with core.quiet():
+            f.generate()
+        if U.model_state(m) != U.model_state(f):
+            bad_state += 1
+            if bad_state <= 2:
+                which = [n for n in ('BEM', 'Sch', 'road', 'rural', 'UCM', 'UBL', 'RSM', 'forc', 'simTime', 'geoParam')
+                         if U.fingerprint(getattr(m, n, None)) != U.fingerprint(getattr(f, n, None))]
+                chk.violation('impl-violation', 'generate_depends_on_params_only: extended history, state digest',
+                              case=case,
+                              observed='state after history+generate differs from a fresh object with the same '
+                                       'current parameters in %s (e.g. stock simulated: %s vs %s; road vegetated '
+                                       'fraction %r vs %r)' % (
+                                           which, [(b.bldtype, b.builtera, b.frac) for b in m.BEM],
+                                           [(b.bldtype, b.builtera, b.frac) for b in f.BEM],
+                                           m.road.vegcoverage, f.road.vegcoverage),
+                              expected='identical digests: current bld = %r' % (m.bld,))
+        with core.quiet():
+            m.simulate()
+            f.simulate()
+        nsim += 2
+        if U.records(m) != U.records(f):
+            bad_rec += 1
+            if bad_rec <= 2:
+                rm, rf = U.records(m), U.records(f)
+                d = next((n for n, (a, b) in enumerate(zip(rm, rf)) if a != b), None)
+                chk.violation('impl-violation', 'generate_forgets: extended history vs fresh object', case=case,
+                              observed='hourly records differ (first differing hour %s: %s vs %s)' % (
+                                  d, rm[d][:2] if d is not None and rm[d] else None,
+                                  rf[d][:2] if d is not None and rf[d] else None),
+                              expected='bit-identical hourly records')
+    n = len(plain) + len(cust)
+    chk.direct('extended-history-vs-fresh(state digest + records)', n, n,
+               'histories over the extended alphabet ending in generate; simulate: in-place edits of list-valued '
+               'parameters (bld[i] = row, shares moved between rows, append / pop, slice assignment, edits through the caller\'s own list, '
+               'schtraffic entries), refused assignments (caught) of every validated family - ratios incl. negative '
+               'cover fractions, cover sums, overrides, positive numbers, integers / calendar, zone, bld, schtraffic '
+               'shape, rural path - , parameters set between generate() and simulate() (nday, month, dtsim), calls made '
+               'after a failed call (generate() refused for a non-divisor timestep / unknown building type, simulate() '
+               'raising part-way under toy physics, then write_epw()), '
+               'attributes assigned on a custom reference building after it was handed in; deep digest after the '
+               'final generate and hourly records vs a fresh object carrying deep copies of the CURRENT parameter '
+               'values (%d real 1-day simulations)' % nsim,
+               mismatches=bad_state + bad_rec, branches=classes)
+    # every entry of the refusal table on one long-lived object: nothing a caller can read back changes
+    m = base_model(work)
+    nref = 0
+    for famname, p, v in table + S3.cover_sum_refusals(m):
+        before = S3.param_view(m)
+        res = S3.try_assign(m, p, v)
+        nref += 1
+        d = S3.view_diff(before, S3.param_view(m))
+        if res == 'accepted':
+            setattr(m, p, before[p])
+            continue
+        if d:
+            bad_trace += 1
+            if bad_trace <= 3:
+                chk.violation('impl-violation', 'refused assignment leaves a trace in the parameters',
+                              case={'parameter': p, 'value': repr(v), 'family': famname},
+                              observed='%s; afterwards %s reads %r (before: %r)' % (res, d[0][0], d[0][2], d[0][1]),
+                              expected='nothing changes')
+    # the one refusal of the unchanged tree that does leave a trace (recorded, see KNOWN_TRACE)
+    sch = copy.deepcopy(m.schtraffic)
+    sch[1][3] = float('nan')
+    before = S3.param_view(m)
+    res = S3.try_assign(m, 'schtraffic', sch)
+    if res.startswith('refused') and S3.view_diff(before, S3.param_view(m)):
+        known = 1
+        chk.notes.append('unchanged-tree finding (recorded, not judged): a refused `schtraffic` assignment with a '
+                         'NaN entry leaves the stored schedule zeroed from that entry on (the setter resets '
+                         '_schtraffic before validating the entries)')
+    chk.direct('refused-assignment-leaves-no-trace', nref, nref,
+               'every (parameter, out-of-range value) pair of the refusal table assigned on one long-lived object '
+               'under try/except: to_dict(), vegcover and epw_path read the same before and after; '
+               'known exception recorded: schtraffic with a NaN entry (%d)' % known,
+               mismatches=bad_trace, branches=refusals)
 
 
 def run(chk):
@@ -211,6 +513,7 @@ def run(chk):
     chk.direct('state-after-generate(digest)', len(hist), len(hist),
                'deep bit-exact digest of every object a simulation starts from, after history+generate vs fresh',
                mismatches=bad2)
+    extended_histories(chk, work, uwg)
     chk.assumptions.append('the physics is uninterpreted in the theorem (any machine); the tie checks that the '
                            'real generate() has the modelled shape (reload pristine library, apply current '
                            'parameters) on generated histories')
